@@ -53,7 +53,7 @@ class Pool:
         api = drive_api or api
         if api in APIS and not extra_defs:
             r = self.rng.fork(family)
-            for i in r.shuffle(list(range(len(lines))))[:self.cap]:
+            for i in r.shuffle(list(range(len(lines))))[:(1 if "corpus" in family else self.cap)]:
                 if len(lines[i].split()) <= 400:
                     self.items.append((APIS.index(api), lines[i], keyfn))
         return [None] * len(lines), [0] * len(lines)
@@ -140,7 +140,7 @@ def run(ctx):
             if recs[i] is None:
                 rc, err = crashed.get(i, (None, ""))
                 fam["crashes"] += 1
-                ctx.violate("hist|crash|%s" % (site or c11.crash_key(rc, err)),
+                ctx.violate("hist|crash|%s" % (site or vlib.refine_crash_key(c11.crash_key(rc, err), "hist", line)),
                             "%s build: the process died on a history (exit %s): %s" % (cfg, rc, c11.crash_key(rc, err)),
                             "hist", line, None, "crash", cfg, (), err)
                 continue
@@ -201,7 +201,7 @@ def run(ctx):
                 m = re.search(r"WARNING: ThreadSanitizer: ([\w -]+) \(", err)
                 loc = re.findall(r"#0 (\w+) /repo/src/cmr/([\w.]+):", err)
                 key = "threads|crash|%s" % ((m.group(1).strip() + ":" + ",".join(sorted(set(a for a, _ in loc[:2])))) if m
-                                            else c11.crash_key(rc, err))
+                                            else vlib.refine_crash_key(c11.crash_key(rc, err), "threads", line))
                 ctx.violate(key, "%s build: the concurrent workload died (exit %s): %s" % (cfg, rc, key), "threads", line, None,
                             "crash", cfg, (), err)
                 continue
